@@ -446,6 +446,15 @@ func (v *VM) LoadScriptWithFlags(b []byte, f callflag.CallFlag) {
 	v.loadScriptWithCallingHash(b, nil, nil, v.GetCurrentScriptHash(), util.Uint160{}, f, -1, 0, nil, nil, false)
 }
 
+// LoadScriptWithCaller is similar to the LoadScriptWithFlags method, but it
+// takes the calling script hash as given instead of using the hash of the
+// currently executing script. It is for scripts that are loaded on top of
+// another one without being called by it, like the invocation script of a
+// witness (nobody calls it, its caller is the zero hash).
+func (v *VM) LoadScriptWithCaller(b []byte, caller util.Uint160, f callflag.CallFlag) {
+	v.loadScriptWithCallingHash(b, nil, nil, caller, util.Uint160{}, f, -1, 0, nil, nil, false)
+}
+
 // LoadDynamicScript loads the given script with the given flags. This script is
 // considered to be dynamic, it can either return no value at all or return
 // exactly one value.
